@@ -77,7 +77,7 @@ theorem correct_mag_reject_W (h : error_code x W y_b decl std_mag beta_mag_c ≠
   · reject_entry W_mag_5_5
 theorem correct_mag_upper_zero (i j : Fin 6) (hij : i < j) :
     W_mag_mat x W y_b decl std_mag beta_mag_c i j = 0 := by
-  fin_cases i <;> fin_cases j <;> first | (exfalso; revert hij; decide) | simp [cas_defs, cas_real]
+  fin_cases i <;> fin_cases j <;> first | (exfalso; revert hij; decide) | simp [cas_defs, cas_real] <;> (try ring1)
 end correct_mag
 
 section correct_accel
@@ -128,7 +128,7 @@ theorem correct_accel_reject_W (h : error_code x W y_b g omega_b std_accel std_a
   · reject_entry W_accel_5_5
 theorem correct_accel_upper_zero (i j : Fin 6) (hij : i < j) :
     W_accel_mat x W y_b g omega_b std_accel std_accel_omega beta_accel_c i j = 0 := by
-  fin_cases i <;> fin_cases j <;> first | (exfalso; revert hij; decide) | simp [cas_defs, cas_real]
+  fin_cases i <;> fin_cases j <;> first | (exfalso; revert hij; decide) | simp [cas_defs, cas_real] <;> (try ring1)
 end correct_accel
 
 /-! ### accepted corrections never increase the covariance (under the contract of the QR factorisation)
@@ -175,35 +175,35 @@ theorem correct_mag_accept_W (h0 : error_code x W y_b decl std_mag beta_mag_c qr
   ext i j
   fin_cases i <;> fin_cases j <;> simp [W_mag_mat, toBlocks₂₂, upperPart]
   · accept_entry W_mag_0_0
-  · simp [cas_defs, cas_real]
-  · simp [cas_defs, cas_real]
-  · simp [cas_defs, cas_real]
-  · simp [cas_defs, cas_real]
-  · simp [cas_defs, cas_real]
+  · simp [cas_defs, cas_real] <;> (try ring1)
+  · simp [cas_defs, cas_real] <;> (try ring1)
+  · simp [cas_defs, cas_real] <;> (try ring1)
+  · simp [cas_defs, cas_real] <;> (try ring1)
+  · simp [cas_defs, cas_real] <;> (try ring1)
   · accept_entry W_mag_1_0
   · accept_entry W_mag_1_1
-  · simp [cas_defs, cas_real]
-  · simp [cas_defs, cas_real]
-  · simp [cas_defs, cas_real]
-  · simp [cas_defs, cas_real]
+  · simp [cas_defs, cas_real] <;> (try ring1)
+  · simp [cas_defs, cas_real] <;> (try ring1)
+  · simp [cas_defs, cas_real] <;> (try ring1)
+  · simp [cas_defs, cas_real] <;> (try ring1)
   · accept_entry W_mag_2_0
   · accept_entry W_mag_2_1
   · accept_entry W_mag_2_2
-  · simp [cas_defs, cas_real]
-  · simp [cas_defs, cas_real]
-  · simp [cas_defs, cas_real]
+  · simp [cas_defs, cas_real] <;> (try ring1)
+  · simp [cas_defs, cas_real] <;> (try ring1)
+  · simp [cas_defs, cas_real] <;> (try ring1)
   · accept_entry W_mag_3_0
   · accept_entry W_mag_3_1
   · accept_entry W_mag_3_2
   · accept_entry W_mag_3_3
-  · simp [cas_defs, cas_real]
-  · simp [cas_defs, cas_real]
+  · simp [cas_defs, cas_real] <;> (try ring1)
+  · simp [cas_defs, cas_real] <;> (try ring1)
   · accept_entry W_mag_4_0
   · accept_entry W_mag_4_1
   · accept_entry W_mag_4_2
   · accept_entry W_mag_4_3
   · accept_entry W_mag_4_4
-  · simp [cas_defs, cas_real]
+  · simp [cas_defs, cas_real] <;> (try ring1)
   · accept_entry W_mag_5_0
   · accept_entry W_mag_5_1
   · accept_entry W_mag_5_2
@@ -226,7 +226,7 @@ theorem correct_mag_accept_cov (hQ : (Matrix.of qrQ)ᵀ * Matrix.of qrQ = 1)
   have hA : ∀ (i : Fin 6) (j : Fin 1), qr_arg_mat x W y_b decl std_mag beta_mag_c qrQ qrR (finSumFinEquiv (m := 1) (n := 6) (Sum.inl j)) (finSumFinEquiv (Sum.inr i)) = 0 := by
     intro i j; fin_cases i <;> fin_cases j <;> simp only [e1_inl0, e2_inl0, e2_inl1, e1_inr0, e1_inr1, e1_inr2, e1_inr3, e1_inr4, e1_inr5, e2_inr0, e2_inr1, e2_inr2, e2_inr3, e2_inr4, e2_inr5]
     all_goals simp only [qr_arg_mat, Matrix.of_apply, Matrix.cons_val', Matrix.cons_val_zero, Matrix.cons_val_one, Matrix.cons_val, Matrix.cons_val_fin_one]
-    all_goals simp [cas_defs, cas_real]
+    all_goals simp [cas_defs, cas_real] <;> (try ring1)
   have hR : ∀ (i : Fin 6) (j : Fin 1), upperPart qrR (finSumFinEquiv (m := 1) (n := 6) (Sum.inr i)) (finSumFinEquiv (m := 1) (n := 6) (Sum.inl j)) = 0 := by
     intro i j; fin_cases i <;> fin_cases j <;> simp [upperPart]
   obtain ⟨_, _, d⟩ := SqrtFilter.flat (M := Fin 1) (N := Fin 6) finSumFinEquiv _ _ _ hQ hQR hA hR
@@ -245,35 +245,35 @@ theorem correct_accel_accept_W (h0 : error_code x W y_b g omega_b std_accel std_
   ext i j
   fin_cases i <;> fin_cases j <;> simp [W_accel_mat, toBlocks₂₂, upperPart]
   · accept_entry W_accel_0_0
-  · simp [cas_defs, cas_real]
-  · simp [cas_defs, cas_real]
-  · simp [cas_defs, cas_real]
-  · simp [cas_defs, cas_real]
-  · simp [cas_defs, cas_real]
+  · simp [cas_defs, cas_real] <;> (try ring1)
+  · simp [cas_defs, cas_real] <;> (try ring1)
+  · simp [cas_defs, cas_real] <;> (try ring1)
+  · simp [cas_defs, cas_real] <;> (try ring1)
+  · simp [cas_defs, cas_real] <;> (try ring1)
   · accept_entry W_accel_1_0
   · accept_entry W_accel_1_1
-  · simp [cas_defs, cas_real]
-  · simp [cas_defs, cas_real]
-  · simp [cas_defs, cas_real]
-  · simp [cas_defs, cas_real]
+  · simp [cas_defs, cas_real] <;> (try ring1)
+  · simp [cas_defs, cas_real] <;> (try ring1)
+  · simp [cas_defs, cas_real] <;> (try ring1)
+  · simp [cas_defs, cas_real] <;> (try ring1)
   · accept_entry W_accel_2_0
   · accept_entry W_accel_2_1
   · accept_entry W_accel_2_2
-  · simp [cas_defs, cas_real]
-  · simp [cas_defs, cas_real]
-  · simp [cas_defs, cas_real]
+  · simp [cas_defs, cas_real] <;> (try ring1)
+  · simp [cas_defs, cas_real] <;> (try ring1)
+  · simp [cas_defs, cas_real] <;> (try ring1)
   · accept_entry W_accel_3_0
   · accept_entry W_accel_3_1
   · accept_entry W_accel_3_2
   · accept_entry W_accel_3_3
-  · simp [cas_defs, cas_real]
-  · simp [cas_defs, cas_real]
+  · simp [cas_defs, cas_real] <;> (try ring1)
+  · simp [cas_defs, cas_real] <;> (try ring1)
   · accept_entry W_accel_4_0
   · accept_entry W_accel_4_1
   · accept_entry W_accel_4_2
   · accept_entry W_accel_4_3
   · accept_entry W_accel_4_4
-  · simp [cas_defs, cas_real]
+  · simp [cas_defs, cas_real] <;> (try ring1)
   · accept_entry W_accel_5_0
   · accept_entry W_accel_5_1
   · accept_entry W_accel_5_2
@@ -296,7 +296,7 @@ theorem correct_accel_accept_cov (hQ : (Matrix.of qrQ)ᵀ * Matrix.of qrQ = 1)
   have hA : ∀ (i : Fin 6) (j : Fin 2), qr_arg_mat x W y_b g omega_b std_accel std_accel_omega beta_accel_c qrQ qrR (finSumFinEquiv (m := 2) (n := 6) (Sum.inl j)) (finSumFinEquiv (Sum.inr i)) = 0 := by
     intro i j; fin_cases i <;> fin_cases j <;> simp only [e1_inl0, e2_inl0, e2_inl1, e1_inr0, e1_inr1, e1_inr2, e1_inr3, e1_inr4, e1_inr5, e2_inr0, e2_inr1, e2_inr2, e2_inr3, e2_inr4, e2_inr5]
     all_goals simp only [qr_arg_mat, Matrix.of_apply, Matrix.cons_val', Matrix.cons_val_zero, Matrix.cons_val_one, Matrix.cons_val, Matrix.cons_val_fin_one]
-    all_goals simp [cas_defs, cas_real]
+    all_goals simp [cas_defs, cas_real] <;> (try ring1)
   have hR : ∀ (i : Fin 6) (j : Fin 2), upperPart qrR (finSumFinEquiv (m := 2) (n := 6) (Sum.inr i)) (finSumFinEquiv (m := 2) (n := 6) (Sum.inl j)) = 0 := by
     intro i j; fin_cases i <;> fin_cases j <;> simp [upperPart]
   obtain ⟨_, _, d⟩ := SqrtFilter.flat (M := Fin 2) (N := Fin 6) finSumFinEquiv _ _ _ hQ hQR hA hR
@@ -397,13 +397,13 @@ theorem init_reject_zero (h : error_code g_b B_b decl ≠ 0) : x0_vec g_b B_b de
   · init_entry x0_0
   · init_entry x0_1
   · init_entry x0_2
-  · simp [cas_defs, cas_real]
-  · simp [cas_defs, cas_real]
-  · simp [cas_defs, cas_real]
+  · simp [cas_defs, cas_real] <;> (try ring1)
+  · simp [cas_defs, cas_real] <;> (try ring1)
+  · simp [cas_defs, cas_real] <;> (try ring1)
 
 /-- the initial gyro bias is zero whatever the measurements -/
 theorem init_bias_zero : x0_3 g_b B_b decl = 0 ∧ x0_4 g_b B_b decl = 0 ∧ x0_5 g_b B_b decl = 0 := by
-  refine ⟨?_, ?_, ?_⟩ <;> simp [cas_defs, cas_real]
+  refine ⟨?_, ?_, ?_⟩ <;> simp [cas_defs, cas_real] <;> (try ring1)
 end init
 
 end C11
